@@ -3000,6 +3000,9 @@ func setExec(n *node) {
 			}
 		}
 		n.gen(n)
+		// The node is no longer in progress. Its exec may legitimately remain nil
+		// (i.e. a return statement), it must not be taken for the entry of a cycle.
+		delete(seen, n)
 	}
 
 	set(n)
